@@ -156,6 +156,12 @@ class C11(PropBase):
                         files = [e for e in L if is_file(e)]
                         base = rng.choice(files or L).split('/')
                         q = '/'.join(base[:-2] + ['*']) if len(base) > 3 else '/'.join(base)       # the state level (no path template): constants
+                    elif qi in (4, 24) and any('.' in e.split('/')[-1] and not is_file(e) for e in L):
+                        # a folder entity whose free value holds a dot, named exactly, with an inner star, or in a ',' list
+                        e = rng.choice([e for e in L if '.' in e.split('/')[-1] and not is_file(e)]).split('/')
+                        w = e[-1]
+                        k_ = w.index('.')
+                        q = '/'.join(e[:-1] + [rng.choice([w, w[:k_ + 1] + '*', '*' + w[k_:], w + ',zz', w[:k_] + ',' + w])])
                     elif qi in (19, 33) and v.alias:
                         # an extension alias as the only search feature (every other value explicit): still a search, on every Finder
                         files = [e for e in L if is_file(e)]
